@@ -157,6 +157,10 @@ def correspondence(ctx):
                 '        return "Coin(%r, %r)" % (self.value, self.unit)\n    def __str__(self):\n        return "%s %s" % (self.value, self.unit)\n'
                 'def make(n):\n    return Coin(n, "cent")\ndef purse():\n    return [Coin(1, "cent"), Coin(5, "cent")]\n',
          'inputs': [], 'calls': [['make', ['25']], ['purse', []]]},
+        # failures raised inside library code: the line is the student's line that called it
+        {'src': 'import random\nitems = []\nprint("start")\nchosen = random.choice(items)\nprint("unreachable")\n', 'inputs': [], 'calls': []},
+        {'src': 'import statistics\nimport json\ndef average(xs):\n    total = 0\n    return statistics.mean(xs)\ndef parse(t):\n    return json.loads(t)\n'
+                'print(average([1, 2, 3]))\n', 'inputs': [], 'calls': [['average', ['[]']], ['parse', ["'{oops'"]], ['average', ['[4, 6]']]]},
         # leading blank space belongs to the line
         {'src': 'for i in range(3):\n    print(" " * (3 - i) + "*" * (2 * i + 1))\nprint("\\titem\\t3")\ndef receipt():\n    print("  total:  5")\n',
          'inputs': [], 'calls': [['receipt', []]]},
